@@ -202,6 +202,18 @@ def body_chain(case):
             f"photon density at {det!r} km is {pe1[i]!r}; 525 km value {d525[i]!r} x (d525/ddet)^2 = {exp!r} (event beta={math.degrees(beta[i])!r} deg alt={alt[i]!r} km; rel. diff {abs(pe1[i] - exp) / max(exp, 1e-300):.3e})",
         )
 
+    # copies of the stage object (pickled: what a worker process receives; deep copy) behave like the object
+    if case.get("copy_form"):
+        import copy
+        import pickle
+
+        e_src = _eas(det, 1.0, 1.0, 1e300)
+        with cut(f"{case['copy_form']} copy of EAS({det} km)"):
+            e_cp = pickle.loads(pickle.dumps(e_src)) if case["copy_form"] == "pickle" else (copy.deepcopy(e_src) if case["copy_form"] == "deepcopy" else copy.copy(e_src))
+            pec, cosc, _ = run_eas(e_cp, beta, alt, E, cloudf)
+        require(pec.tobytes() == pe1.tobytes() and cosc.tobytes() == cos1.tobytes(), f"a {case['copy_form']} copy of the stage object for a detector at {det!r} km gives photo-electrons {pec.tolist()}; the object itself {pe1.tolist()}")
+        labels.add("copy_" + case["copy_form"])
+
     # input forms: whole-number decay altitudes given as an integer-typed array (a grid of altitudes) are the same events
     if case.get("int_alt"):
         whole = np.clip(np.round(alt), -2, 22)
@@ -298,6 +310,7 @@ SUBCHECKS = [
                 "cloud": st.one_of(st.none(), st.none(), st.floats(0.0, 18.0), st.sampled_from([3.0, 8.0, 12.5])),
                 "preempt": st.one_of(st.just([]), st.lists(st.one_of(st.integers(0, 60), st.integers(0, 600), st.integers(0, 5000)), min_size=1, max_size=2)),
                 "lowdet": st.one_of(st.none(), st.none(), st.none(), st.floats(2.0, 20.0), st.sampled_from([2.0, 4.5, 10.0])),
+                "copy_form": st.sampled_from([None, None, "pickle", "deepcopy", "copy"]),
                 "int_alt": st.sampled_from([None, None, "int64", "int32", "uint32"]),  # (16-bit integers make numpy's ufuncs work in float32: single-precision noise of the ill-conditioned distance formula, not compared)
                 "bystander": st.one_of(st.none(), st.tuples(st.sampled_from([33.0, 400.0, 525.0, 2000.0, 4.0]), st.booleans()).map(list)),
             }
